@@ -84,12 +84,17 @@ def zip_lookup_sites():
         "ZipContext.__init__: _namelist = set(zip.namelist())": _has_stmt(Z.__init__, "self._namelist = set(self._zip.namelist())"),
         "ZipContext.namelist": _ret_expr(Z.namelist.fget) == _expr("self._namelist"),
         "ZipContext.exists": _ret_expr(Z.exists) == _expr("path in self._namelist"),
-        "ZipContext.read_bytes": _ret_expr(Z.read_bytes) == _expr("self._zip.read(path)"),
+        "ZipContext.read_bytes": _ret_expr(Z.read_bytes) == _expr("read_zip_member(self._zip, path)"),
         "ZipContext.open_stream": _ret_expr(Z.open_stream) == _expr("self._zip.open(path)"),
         "ZipContext.read_text": _ret_expr(Z.read_text) == _expr("read_zip_text(self._zip, path)"),
         "ZipContext.read_xml_root": _ret_expr(Z.read_xml_root) == _expr("read_zip_xml_root(self._zip, path)"),
-        "zip_utils.read_zip_text": _has_stmt(zu.read_zip_text, "EXPR zf.read(path)"),
-        "zip_utils.read_zip_xml_root": _has_stmt(zu.read_zip_xml_root, "EXPR zf.read(path)"),
+        "zip_utils.read_zip_text": _has_stmt(zu.read_zip_text, "EXPR read_zip_member(zf, path)"),
+        "zip_utils.read_zip_xml_root": _has_stmt(zu.read_zip_xml_root, "EXPR read_zip_member(zf, path)"),
+        # read_zip_member(zf, path): the member is looked up BY NAME (getinfo: the last central-directory entry of that
+        # exact name), opened through that entry and read up to its claimed size
+        "zip_utils.read_zip_member: info = zf.getinfo(path)": hasattr(zu, "read_zip_member") and _has_stmt(zu.read_zip_member, "info = zf.getinfo(path)"),
+        "zip_utils.read_zip_member: zf.open(info)": hasattr(zu, "read_zip_member") and _has_stmt(zu.read_zip_member, "EXPR zf.open(info)"),
+        "zip_utils.read_zip_member: member.read(info.file_size)": hasattr(zu, "read_zip_member") and _has_stmt(zu.read_zip_member, "return member.read(info.file_size)"),
     }
     accessors = ("exists", "read_bytes", "read_text", "read_xml_root", "open_stream", "namelist")
     subs = [oc.OOXMLZipContext, dx._DocxContext, px._PptxContext, ex._EpubContext]
@@ -119,7 +124,8 @@ def gen_tables(ctx):
         for c in fn.__code__.co_consts:
             flat += list(c) if isinstance(c, tuple) else [c]
         return [c for c in flat if isinstance(c, bytes)]
-    cs = consts(dx._get_image_pixel_dimensions)
+    sniffers = [getattr(m, "_get_image_pixel_dimensions", None) for m in (dx, px, xx)]
+    cs = consts(sniffers[0]) if sniffers[0] is not None else []
     pick = lambda pred: next((c for c in cs if pred(c)), b"")
 
     def sof_of(m):
@@ -127,7 +133,8 @@ def gen_tables(ctx):
         s_ = getattr(m, "_JPEG_SOF_MARKERS", None)
         if s_ is not None:
             return sorted(s_)
-        for c in m._get_image_pixel_dimensions.__code__.co_consts:
+        fn_ = getattr(m, "_get_image_pixel_dimensions", None)
+        for c in (fn_.__code__.co_consts if fn_ is not None else ()):
             if isinstance(c, (tuple, frozenset)) and 0xC0 in c and all(isinstance(x, int) for x in c):
                 return sorted(c)
         return []
@@ -146,6 +153,15 @@ def gen_tables(ctx):
     for nm_, fn_ in (("odt._extract_images_from_context", ot._extract_images_from_context), ("odp._extract_image", op_._extract_image),
                      ("ods._extract_images", os_._extract_images), ("odg._extract_images", og._extract_images)):
         sites[nm_] = "odf_member_name" in _calls(fn_)
+    # X: the pixel size of an OOXML picture comes from the byte-signature sniffer of the extractor (the function the
+    # sniffer theorems model), called in the image loop — not from the part name
+    sniffer_sites = {}
+    for nm_, m_, loop in (("docx", dx, "_extract_images_from_context"), ("pptx", px, "_process_slide_from_context"),
+                          ("xlsx", xx, "_extract_images_from_zip")):
+        fn_ = getattr(m_, "_get_image_pixel_dimensions", None)
+        sniffer_sites[f"{nm_}._get_image_pixel_dimensions(image_data) exists"] = fn_ is not None and \
+            list(inspect.signature(fn_).parameters) == ["image_data"]
+        sniffer_sites[f"{nm_}.{loop} calls it"] = hasattr(m_, loop) and "_get_image_pixel_dimensions" in _calls(getattr(m_, loop))
     anchor_ids = {xx.XDR_ONE_CELL_ANCHOR: 0, xx.XDR_TWO_CELL_ANCHOR: 1, xx.XDR_ABSOLUTE_ANCHOR: 2}
     pair = lambda a, b: f"({a}, {b})"
     t = "(* GENERATED on every check run from the live modules of the repo under test — do not edit. *)\n"
@@ -159,6 +175,8 @@ def gen_tables(ctx):
     from sharepoint2text.parsing.extractors.pdf import pdf_extractor as pdfx
     t += "Definition pdf_ctmap : list (str * str) := " + coq_list(
         [pair(coq_str(k), coq_str(v)) for k, v in pdfx.FILTER_TO_CONTENT_TYPE.items()]) + ".\n"
+    t += "Definition sniffer_sites : list (str * bool) := " + coq_list(
+        [pair(coq_str(k), coq_bool(v)) for k, v in sniffer_sites.items()]) + ".\n"
     t += "Definition zip_lookup_sites : list (str * bool) := " + coq_list(
         [pair(coq_str(k), coq_bool(v)) for k, v in zip_lookup_sites().items()]) + ".\n"
     t += f"Definition sig_png : list Z := {zl(pick(lambda c: c.startswith(bytes([0x89]) + b'PNG')))}.\n"
@@ -310,8 +328,17 @@ def corr_sniff(ctx):
             return (r[0], r[1])
         except Exception as e:  # noqa
             return ("raised", type(e).__name__)
+    sn = [getattr(m, "_get_image_pixel_dimensions", None) for m in (dx, px, xx)]
+    if any(f is None for f in sn):
+        ctx.obligation("sniffers:_get_image_pixel_dimensions present in docx/pptx/xlsx extractors", False,
+                       "the byte-signature sniffer modelled by Model.ooxml_dims is gone from an extractor; pixel sizes are "
+                       "checked on generated packages only (see the package oracle for a concrete input)")
+        sn = [f or (lambda d_: (None, None)) for f in sn]
+        sn_present = False
+    else:
+        sn_present = True
     for d, truth in items:
-        o = [call(m._get_image_pixel_dimensions, d) for m in (dx, px, xx)]
+        o = [call(f, d) for f in sn]
         u = [call(iu.get_image_dimensions, d, k) for k in ("png", "jpeg", "bmp", "gif")]
         ctx.case(("sniff", d), len(d) >= 10, kind="sniff:" + (truth[0] if truth else "malformed"))
         bad = [r for r in o + u if r[0] == "raised"]
@@ -321,7 +348,7 @@ def corr_sniff(ctx):
             continue
         if not (o[0] == o[1] == o[2]):
             ctx.finding("sniffer-copies-disagree", f"the three _get_image_pixel_dimensions copies disagree: {o}", {"data": d, "answers": o})
-        if truth:                                       # property oracle: the declared pixel size
+        if truth and sn_present:                        # property oracle: the declared pixel size
             kind, w, h = truth
             want = (abs(w) or None, abs(h) or None)
             if o[0] != want:
@@ -335,7 +362,7 @@ def corr_sniff(ctx):
                                        ty="list Z * (option Z * option Z) * list (option Z * option Z)")
     ctx.traces += len(cases)
     ctx.disagreements += len(failing)
-    ctx.obligation("correspondence:ooxml_dims/util_dims == _get_image_pixel_dimensions/get_image_dimensions", ok and not failing,
+    ctx.obligation("correspondence:ooxml_dims/util_dims == _get_image_pixel_dimensions/get_image_dimensions", ok and not failing and sn_present,
                    (f"{len(failing)} disagreements, first: {info[failing[0]] if failing else ''} " + log)[:1500])
     ctx.extra["sniff_cases"] = len(cases)
 
@@ -352,6 +379,30 @@ SOURCE = {"docx": lambda n: "word/document.xml", "pptx": lambda n: f"ppt/slides/
 
 
 VARIANTS: dict = {}
+ENV_CASES: list = []          # (format, package bytes): a sample of the generated documents, re-run under other environments
+
+
+def observe(case):
+    """canonical result of the implementation on a generated document: document view and unit view of the images"""
+    fmt, data = case
+    if fmt == "pdf":
+        from sharepoint2text.parsing.extractors.pdf.pdf_extractor import read_pdf
+        res = next(read_pdf(io.BytesIO(data)))
+    else:
+        res = None
+    obs = lambda i: (sha(i.get_bytes().read()), i.get_content_type(), tuple(sorted((k, v) for k, v in dict(i.get_metadata()).items())))
+    if res is None:
+        doc, units = run_impl({"fmt": fmt}, data)
+        can = lambda o: tuple(sorted(o.items()))
+        return (tuple(can(o) for o in doc), tuple(tuple(can(o) for o in u) for u in units))
+    return (tuple(obs(i) for i in res.iterate_images()), tuple(tuple(obs(i) for i in u.get_images()) for u in res.iterate_units()))
+
+
+def env_dimension(ctx):
+    """the images of a document do not depend on logging level, thread, time zone or working directory"""
+    import common
+    common.env_sweep(ctx, "images-of-generated-documents", observe, list(ENV_CASES),
+                     describe=lambda c: f"generated {c[0]} document ({len(c[1])} bytes, sha256 {sha(c[1])[:12]})")
 
 
 def probe_variants(ctx):
@@ -406,11 +457,14 @@ def gen_spec(ctx, fmt, idx):
         # from the name — one the tables do not know
         ext_ = Wr.EXT[kind]
         r_ext = rng.random()
-        unknown_ext = False
+        unknown_ext = misleading_ext = False
         if r_ext < 0.15:
             ext_ = rng.choice([ext_.upper(), ext_.capitalize()] + (["jpeg", "JPEG"] if kind == "jpeg" else []))
         elif r_ext < 0.22 and fmt in ("docx", "pptx", "xlsx"):
-            ext_, unknown_ext = "dat", True
+            ext_, unknown_ext = rng.choice(["dat", "bin", "tmp", "jfif"]), True
+        elif r_ext < 0.27 and fmt in ("docx", "pptx", "xlsx"):
+            # an extension that names ANOTHER raster format than the bytes (a PNG stored as image1.jpeg)
+            ext_, misleading_ext = rng.choice([e for k_, e in Wr.EXT.items() if k_ != kind]), True
         part = f"{d}/{sub}image{i + 1}.{ext_}"
         data = Wr.MAKERS[kind](min(w, 8), min(h, 8), idx * 7 + i)
         # patch the declared size into the header so that sizes vary without big pixel data
@@ -423,7 +477,11 @@ def gen_spec(ctx, fmt, idx):
         else:
             data = Wr.jpeg(w, h, idx * 7 + i, app_segments=rng.randint(0, 2))
         media.append({"part": part, "kind": kind, "w": w, "h": h, "data": data + b"#%d.%d" % (idx, i), "present": True,
-                      "unknown_ext": unknown_ext})
+                      "unknown_ext": unknown_ext, "misleading_ext": misleading_ext})
+    # duplicate member name: an earlier archive entry of the same name with other bytes (the name designates the LAST entry)
+    if media and rng.random() < 0.12:
+        md_ = media[rng.randrange(len(media))]
+        md_["dup_first"] = Wr.MAKERS[md_["kind"]](3, 3, idx * 7 + 6) + b"#dupfirst%d" % idx
     # twins: two members whose names differ only in letter case / Unicode normalisation form / a trailing space of
     # the stem; both are referenced exactly and each reference must be served its own bytes
     twins = None
@@ -449,7 +507,7 @@ def gen_spec(ctx, fmt, idx):
         elif ma["kind"] == "bmp":
             d2 = d2[:18] + w2.to_bytes(4, "little") + h2.to_bytes(4, "little") + d2[26:]
         media.append({"part": dirn + "/" + tb, "kind": ma["kind"], "w": w2, "h": h2, "data": d2 + b"#twin%d" % idx, "present": True,
-                      "unknown_ext": ma.get("unknown_ext", False)})
+                      "unknown_ext": ma.get("unknown_ext", False), "misleading_ext": ma.get("misleading_ext", False)})
         twins = (a, len(media) - 1, how)
     nunits = rng.randint(1, 3) if fmt in UNIT_FORMATS else 1
     styles = {"docx": ["rel"] * 5 + ["parent", "abs", "dot", "updown", "missing", "external"],
@@ -494,6 +552,8 @@ def gen_spec(ctx, fmt, idx):
             pl = {"style": style, "rid": f"rId{rng.choice([ridn, ridn + 20, 100 - ridn])}"}
             if fmt == "docx":
                 pl["rid"] = f"rId{ridn if rng.random() < 0.5 else 200 - ridn}"
+            if fmt == "odt" and style in ("external", "missing"):
+                pl["in_textbox"] = rng.random() < 0.25
             if style == "external":
                 pl.update(m=None, target=f"http://example.com/pic{ridn}.png")
             elif style == "missing" or not media:
@@ -610,13 +670,27 @@ def check_spec(ctx, spec, doc, units, replay):
         elif mid not in placed_media:
             F(f"{fmt}-phantom:unreferenced" if mid in extra else f"{fmt}-phantom:wrong-member",
               f"iterate_images() returns {media[mid]['part']}, which no drawing of the document references")
+    # multiplicity: a picture is never returned more often than the document places it (per unit where there are units)
+    scopes = [("the document", got_ids, [pl for u in placed for pl in u])]
+    misattributed = fmt in UNIT_FORMATS and any(
+        {g for g in ids if g is not None} - (want_sets[k] if k < len(want_sets) else set()) for k, ids in enumerate(unit_ids))
+    if fmt in UNIT_FORMATS and not misattributed:   # per unit, unless pictures sit on the wrong unit (reported separately)
+        scopes += [(f"unit {k + 1}", unit_ids[k] if k < len(unit_ids) else [], placed[k]) for k in range(len(placed))]
+    surplus = {}
+    for label, ids_, pls_ in scopes:
+        for m_ in {g for g in ids_ if g is not None}:
+            allowed = sum(1 for pl in pls_ if pl["m"] == m_) + (sum(1 for _, _, x in spec.get("extra_rels", []) if x == m_) if fmt == "docx" else 0)
+            if allowed and ids_.count(m_) > allowed:
+                surplus[m_] = ids_.count(m_) - allowed
+                F(f"{fmt}-image-duplicated", f"{media[m_]['part']} is placed {allowed} time(s) in {label} but returned {ids_.count(m_)} times "
+                  f"(placements: {[(pl['target'], 'captioned' if pl.get('in_textbox') else 'plain') for pl in pls_ if pl['m'] == m_]})")
     # content type and declared pixel size
     for o, mid in zip(doc, got_ids):
         if mid is None:
             continue
         m = media[mid]
         if o["ctype"] != Wr.CTYPE[m["kind"]]:
-            F(f"{fmt}-content-type:" + ("unknown-extension" if m.get("unknown_ext") else m["kind"]),
+            F(f"{fmt}-content-type:" + ("unknown-extension" if m.get("unknown_ext") else "misleading-extension" if m.get("misleading_ext") else m["kind"]),
               f"content type {o['ctype']!r} for a {m['kind']} image stored as {m['part']!r}")
         if (o["w"], o["h"]) != (m["w"], m["h"]):
             sub = ""
@@ -629,6 +703,10 @@ def check_spec(ctx, spec, doc, units, replay):
         F(f"{fmt}-numbering", f"image numbers over iterate_images() are {nums}, not 1..{len(doc)}")
     want = [pl["m"] for u in placed for pl in u]
     real = [g for g in got_ids if g is not None and g in placed_media]
+    for m_, k_ in surplus.items():                  # surplus copies are reported above, not as an ordering matter
+        for _ in range(k_):
+            if m_ in real:
+                del real[len(real) - 1 - real[::-1].index(m_)]
     if fmt == "docx":
         # a relationship no drawing references may point at a media that is also placed: the surplus copy is the
         # unreferenced-relationship finding, not an ordering matter
@@ -733,7 +811,7 @@ def packages(ctx):
                 continue
             replay = {"format": fmt, "package": data,
                       "spec": {k: v for k, v in spec.items() if k != "media"},
-                      "media": [{k: v for k, v in m.items() if k != "data"} for m in spec["media"]]}
+                      "media": [{k: (v if k != "dup_first" else v is not None) for k, v in m.items() if k != "data"} for m in spec["media"]]}
             nplaced = sum(1 for u in spec["units"] for pl in u if pl["m"] is not None)
             styles = sorted({pl["style"] for u in spec["units"] for pl in u})
             ctx.case((fmt, [(pl["target"], pl["m"]) for u in spec["units"] for pl in u], [m["part"] for m in spec["media"]]),
@@ -744,6 +822,8 @@ def packages(ctx):
                 ctx.finding(f"{fmt}-extraction-raises:{type(e).__name__}", f"{fmt}: extraction of a generated package raised {e!r}", replay)
                 continue
             check_spec(ctx, spec, doc, units, replay)
+            if nplaced and sum(1 for f_, _ in ENV_CASES if f_ == fmt) < 10:
+                ENV_CASES.append((fmt, data))
             if fmt in ("docx", "pptx", "xlsx"):
                 by_sha_ = {sha(m["data"]): k for k, m in enumerate(spec["media"])}
                 for o in doc:
@@ -818,6 +898,8 @@ def pdfs(ctx):
             logo = rng.randrange(nimg)
             pages = [[logo] + p if rng.random() < 0.9 else p for p in pages]
         data = Wr.build_pdf(images, pages)
+        if any(pages) and sum(1 for f_, _ in ENV_CASES if f_ == "pdf") < 12:
+            ENV_CASES.append(("pdf", data))
         by_sha = {sha(m["data"]): i for i, m in enumerate(images)}
         replay = {"format": "pdf", "package": data, "pages": pages,
                   "images": [{"w": m["w"], "h": m["h"], "sha256": sha(m["data"]), "stored_as": m["enc"],
@@ -984,21 +1066,23 @@ def run(ctx):
                         "document order of PPTX/ODP shapes = the position order the extractors sort by (the generator lays shapes out top to bottom)"]
     gen_tables(ctx)
     ctx.prove("C14/Props.v", ["C14/ProofsPath.vo", "C14/ProofsSniff.vo", "C14/ProofsNum.vo", "C14/ProofsPass.vo"], expected=[
-        "C14_odt_numbers", "C14_odg_numbers", "C14_odt_order_refuted", "C14_odt_order_partial", "C14_odf_placeholders_refuted",
+        "C14_odt_numbers", "C14_odt_no_second_copy", "C14_odg_numbers", "C14_odt_order_refuted", "C14_odt_order_partial", "C14_odf_placeholders_refuted",
         "C14_ooxml_content_type", "C14_xlsx_content_type", "C14_content_type_unknown_extension_refuted", "C14_content_type_bytes_fallback",
         "C14_resolve_correct", "C14_resolve_relative", "C14_resolve_parent", "C14_resolve_absolute", "C14_resolve_dot_segments",
         "C14_resolve_names_a_part", "C14_sniff_total", "C14_sniff_png", "C14_sniff_gif", "C14_sniff_bmp", "C14_sniff_jpeg",
         "C14_image_numbers", "C14_running_numbers", "C14_restart_numbers_refuted", "C14_ods_numbers_refuted",
         "C14_views_coincide", "C14_unit_content_in_document", "C14_xlsx_views", "C14_docx_unit_images_in_document",
-        "C14_odf_href_legacy_refuted", "C14_odf_href_legacy_partial", "C14_odf_href_resolved", "C14_sniff_jpeg_util", "C14_member_lookup_exact", "C14_pdf_codec_is_last_stage"])
+        "C14_odf_href_legacy_refuted", "C14_odf_href_legacy_partial", "C14_odf_href_resolved", "C14_sniff_jpeg_util", "C14_member_lookup_exact", "C14_zip_read_by_name", "C14_pdf_codec_is_last_stage"])
     ctx.prove("C14/Inst.v", ["Gen/C14Tables.vo", "C14/Corr.vo"], expected=[
         "C14_sof_markers_match", "C14_content_types_match", "C14_signatures_match", "C14_anchor_order", "C14_pdf_dct_is_jpeg", "C14_content_type_by_extension"])
-    ctx.prove("C14/InstSites.v", ["Gen/C14Tables.vo"], expected=["C14_resolver_sites", "C14_zip_lookup_exact"])
+    ctx.prove("C14/InstSites.v", ["Gen/C14Tables.vo"], expected=["C14_resolver_sites", "C14_zip_lookup_exact", "C14_sniffer_sites"])
     probe_variants(ctx)
     corr_resolve(ctx)
     corr_sniff(ctx)
+    ENV_CASES.clear()
     packages(ctx)
     pdfs(ctx)
+    env_dimension(ctx)
     fixtures(ctx)
 
 
